@@ -1,4 +1,5 @@
 import PyRegex
+import Lean.Meta.Tactic.Simp.RegisterCommand
 /-!
   PyState: the Lean meaning of the fragment of Python that `tools/py2lean_reader.py` translates (`Gen/Reader.lean`): methods of
   objects with mutable state *and* exceptions that are caught, changed and re-raised.  No Mathlib; imports `PyRegex` for
@@ -13,6 +14,10 @@ import PyRegex
   * sub-objects: `zoom get set` runs a method of the object stored in an attribute, `zoomLast` one of `self._xs[-1]`
     (`IndexError` when the list is empty), `onObj` one of an object held in a local variable.
 -/
+/-- the simp set of the private helper methods the translator found through the call graph (`@[py_helper] def …` in the generated
+    modules): a bridge proof unfolds them wherever they are called, so extracting or inlining a helper leaves the proofs alone -/
+register_simp_attr py_helper
+
 namespace Py
 
 inductive Exc (E : Type) where
